@@ -93,7 +93,7 @@ class runcrypt
   Aesmode **prepare_AES(u8_t ctype, u8_t *iv, bool mode);
   void release(u8_t *iv, Aesmode **mode);
   u8_t verify(size_t fsize);
-  void over();
+  bool over();
 
 public:
   runcrypt(FILE *fin, FILE *out, u8_t *key, Settings settings = default_settings, u8_t threads_num = THREAD_NUM);
